@@ -2829,4 +2829,217 @@ example : ∃ ops : List DSessOp, ops.length = 4 ∧ ∀ op ∈ ops, op.Ok :=
 
 example : (dValidate FimVerif.Gen.Serial.jsonPropertyNames (fun _ => true) exDStore (.str "g")).1 = .ok () := rfl
 
+/-! ## Round 4: graphs that live next to other graphs (merge_nodes), value shapes of the JSON-validated properties -/
+
+/-- the Boolean the driver evaluates on every store handed over by the harness is the invariant of the theorems -/
+theorem invB_iff (s : Store) : s.invB = true ↔ StoreInv s := by
+  unfold Store.invB StoreInv
+  simp only [Bool.and_eq_true, decide_eq_true_eq, List.all_eq_true, List.contains_iff_mem]
+  constructor
+  · rintro ⟨⟨h1, h2⟩, h3⟩
+    exact ⟨h1, h2, h3⟩
+  · rintro ⟨h1, h2, h3⟩
+    exact ⟨⟨h1, h2⟩, h3⟩
+
+/-- the edges of the store `extract_graph(g)` reads: those with both ends stamped with `g` (the induced subgraph;
+    an edge leading out of the graph - `merge_nodes` leaves such - is not one of them) -/
+def ownEdges (s : Store) (g : Val) : List (Edge Nat) :=
+  s.edges.filter fun e => ((s.graphNodes g).map (·.iid)).contains e.a && ((s.graphNodes g).map (·.iid)).contains e.b
+
+theorem extract_frame (s s' : Store) (g : Val) (hn : s'.graphNodes g = s.graphNodes g) (he : ownEdges s' g = ownEdges s g) :
+    s'.extract g = s.extract g := by
+  unfold ownEdges at he
+  rw [hn] at he
+  unfold Store.extract
+  simp only [hn, he]
+
+/-- **Frame theorem for `serialize_graph`.**  The text of graph `g` (either format, including every error) is a
+    function of the nodes stamped with `g` and of the edges among them only: two stores that agree on these - whatever
+    other graphs they hold, whatever edges lead from `g` into those graphs or join them, whatever `start_id` is -
+    serialize `g` to the same document. -/
+theorem serialize_frame (s s' : Store) (g : Val) (f : Fmt) (hn : s'.graphNodes g = s.graphNodes g)
+    (he : ownEdges s' g = ownEdges s g) : serialize s' g f = serialize s g f := by
+  unfold serialize
+  rw [extract_frame s s' g hn he]
+
+/-- the same for `validate_graph`'s JSON part is false on the shared store (it looks at the `Class` of every node and
+    edge of the store); what the frame gives for the round trip: nodes of other graphs and edges with an end outside
+    `g`, added anywhere behind the store's own, do not change the document -/
+theorem serialize_ignores_foreign (s : Store) (g : Val) (f : Fmt) (ns : List SNode) (es : List (Edge Nat)) (k : Nat)
+    (hns : ∀ n ∈ ns, Store.inGraph g n = false)
+    (hes : ∀ e ∈ es, e.a ∉ (s.graphNodes g).map (·.iid) ∨ e.b ∉ (s.graphNodes g).map (·.iid)) :
+    serialize ⟨s.nodes ++ ns, s.edges ++ es, k⟩ g f = serialize s g f := by
+  have hn : (⟨s.nodes ++ ns, s.edges ++ es, k⟩ : Store).graphNodes g = s.graphNodes g := by
+    simp only [Store.graphNodes, List.filter_append]
+    have : ns.filter (Store.inGraph g) = [] := by
+      rw [List.filter_eq_nil_iff]
+      intro n hn
+      simp [hns n hn]
+    rw [this, List.append_nil]
+  apply serialize_frame _ _ g f hn
+  unfold ownEdges
+  rw [hn]
+  simp only [List.filter_append]
+  have : es.filter (fun e => ((s.graphNodes g).map (·.iid)).contains e.a && ((s.graphNodes g).map (·.iid)).contains e.b) = [] := by
+    rw [List.filter_eq_nil_iff]
+    intro e he
+    rcases hes e he with h | h
+    · simp [h]
+    · simp [h]
+  rw [this, List.append_nil]
+
+/-- non-vacuity: two graphs in one store after `A.merge_nodes('port-1', B)`: the edge 3-2 leads from B's switch to
+    A's port; A's document is the one of the store that holds A alone -/
+def exMerged : Store :=
+  ⟨[⟨1, [("GraphID", .str "A"), ("NodeID", .str "sw-A"), ("Class", .str "NetworkNode"), ("UserData", .str "7")]⟩,
+    ⟨2, [("GraphID", .str "A"), ("NodeID", .str "port-1"), ("Class", .str "ConnectionPoint"), ("Tags", .str "\"x\"")]⟩,
+    ⟨3, [("GraphID", .str "B"), ("NodeID", .str "sw-B"), ("Class", .str "NetworkNode")]⟩],
+   [⟨1, 2, [("Class", .str "connects")]⟩, ⟨3, 2, [("Class", .str "connects")]⟩], 5⟩
+
+def exAlone : Store := ⟨exMerged.nodes.take 2, exMerged.edges.take 1, 3⟩
+
+example : exMerged.invB = true ∧ ownEdges exMerged (.str "A") = ownEdges exAlone (.str "A") ∧
+    exMerged.graphNodes (.str "A") = exAlone.graphNodes (.str "A") ∧ exMerged.edges ≠ exAlone.edges := by decide
+
+example (f : Fmt) : serialize exMerged (.str "A") f = serialize exAlone (.str "A") f :=
+  serialize_frame exAlone exMerged (.str "A") f (by decide) (by decide)
+
+/-! ### `validate_graph` over what the setters write -/
+
+/-- a JSON-validated property as the setters leave it: absent, or a text that is empty, `"None"`, or accepted by
+    `json.loads` - *any* JSON value, scalars included (`UserData(7).json = "7"`, `Tags.to_json()`, …) -/
+def SetterValue (jsonOk : String → Bool) : Option Val → Prop
+  | none => True
+  | some (.str t) => t = "" ∨ t = "None" ∨ jsonOk t = true
+  | some _ => False
+
+def SetterProduced (names : List String) (jsonOk : String → Bool) (a : Attrs) : Prop :=
+  ∀ name ∈ names, SetterValue jsonOk (a.get? name)
+
+theorem checkJsonProp_setter (jsonOk : String → Bool) (a : Attrs) (name : String) (h : SetterValue jsonOk (a.get? name)) :
+    checkJsonProp jsonOk a name = .ok () := by
+  unfold checkJsonProp
+  by_cases hc : name = "Class"
+  · simp only [hc, if_true]
+  · simp only [hc, if_false]
+    cases hv : a.get? name with
+    | none => rfl
+    | some v =>
+      rw [hv] at h
+      cases v with
+      | str t =>
+        simp only [SetterValue] at h
+        rcases h with h | h | h
+        · simp [h]
+        · simp [h]
+        · by_cases h1 : t = "" ∨ t = "None"
+          · simp [h1]
+          · simp [h1, h]
+      | int i => exact absurd h (by simp [SetterValue])
+      | bool b => exact absurd h (by simp [SetterValue])
+      | float r => exact absurd h (by simp [SetterValue])
+      | other d => exact absurd h (by simp [SetterValue])
+
+theorem filter_unique {α β : Type} (f : α → β) (p : α → Bool) : ∀ (l : List α), (l.map f).Nodup → ∀ a ∈ l,
+    (∀ x, p x = true ↔ f x = f a) → l.filter p = [a]
+  | [], _, a, ha, _ => by cases ha
+  | x :: t, hnd, a, ha, hp => by
+    simp only [List.map_cons, List.nodup_cons, List.mem_map, not_exists, not_and] at hnd
+    rcases List.mem_cons.mp ha with rfl | hat
+    · have : t.filter p = [] := by
+        rw [List.filter_eq_nil_iff]
+        intro y hy hpy
+        exact hnd.1 y hy ((hp y).mp hpy)
+      have hpa : p a = true := (hp a).mpr rfl
+      simp [this, hpa]
+    · have hne : ¬ (p x = true) := fun h => hnd.1 a hat ((hp x).mp h).symm
+      simp only [List.filter_cons, hne]
+      exact filter_unique f p t hnd.2 a hat hp
+
+instance (jsonOk : String → Bool) (o : Option Val) : Decidable (SetterValue jsonOk o) := by
+  cases o with
+  | none => exact isTrue trivial
+  | some v => cases v <;> simp only [SetterValue] <;> infer_instance
+
+instance (names : List String) (jsonOk : String → Bool) (a : Attrs) : Decidable (SetterProduced names jsonOk a) := by
+  unfold SetterProduced
+  infer_instance
+
+/-- **`validate_graph()` accepts every model the setters can produce.**  If the graph `g` is there, its NodeIDs are
+    distinct, every node and edge of the store has a `Class`, and every JSON-validated property of its nodes is
+    setter-produced (JSON text of any shape - object, list, number, string, boolean, null -, empty or "None"),
+    validation passes. `jsonOk` is the verdict of `json.loads`, passed in by the harness for every text in the store. -/
+theorem validate_setter_produced (names : List String) (jsonOk : String → Bool) (s : Store) (g : Val)
+    (hne : s.graphNodes g ≠ [])
+    (hnid : ∀ n ∈ s.graphNodes g, n.attrs.get? "NodeID" ≠ none)
+    (huniq : ((s.graphNodes g).map fun n => n.attrs.get? "NodeID").Nodup)
+    (hcn : ∀ n ∈ s.nodes, hasClass n.attrs = true) (hce : ∀ e ∈ s.edges, hasClass e.attrs = true)
+    (hset : ∀ n ∈ s.graphNodes g, SetterProduced names jsonOk n.attrs) :
+    validate names jsonOk s g = .ok () := by
+  unfold validate
+  have hemp : (s.graphNodes g).isEmpty = false := by
+    cases h : s.graphNodes g with
+    | nil => exact absurd h hne
+    | cons a t => rfl
+  simp only [hemp, Bool.false_eq_true, if_false]
+  have hfor : forE (checkNode names jsonOk s g) (s.graphNodes g) = .ok () := by
+    rw [forE_ok_iff]
+    intro n hn
+    unfold checkNode
+    cases hv : n.attrs.get? "NodeID" with
+    | none => exact absurd hv (hnid n hn)
+    | some nid =>
+      simp only
+      have hfind : findNode s g nid = .ok n := by
+        unfold findNode
+        have := filter_unique (fun m : SNode => m.attrs.get? "NodeID") (fun m : SNode => m.attrs.get? "NodeID" == some nid)
+          (s.graphNodes g) huniq n hn (by intro x; rw [hv]; exact beq_iff_eq)
+        rw [this]
+      rw [hfind]
+      simp only
+      have hmem : n ∈ s.nodes := (List.mem_filter.mp hn).1
+      have hc := hcn n hmem
+      unfold hasClass at hc
+      cases hcl : n.attrs.get? "Class" with
+      | none => simp [hcl] at hc
+      | some v =>
+        simp only [Option.isNone_some, Bool.false_eq_true, if_false]
+        rw [forE_ok_iff]
+        intro name hname
+        exact checkJsonProp_setter jsonOk n.attrs name (hset n hn name hname)
+  rw [hfor]
+  have hall : (s.nodes.all (fun n => hasClass n.attrs) && s.edges.all (fun e => hasClass e.attrs)) = true := by
+    simp only [Bool.and_eq_true, List.all_eq_true]
+    exact ⟨hcn, hce⟩
+  simp only [hall, if_true]
+
+/-- … and after serialising such a model (either format) and importing the text under any id, validation passes:
+    "everything the library serializes passes the library's own graph validation after import", for the names the
+    repository validates (`Gen.Serial.jsonPropertyNames`) -/
+theorem validates_after_import_setter (jsonOk : String → Bool) (s : Store) (hs : StoreInv s) (g g' : Val) (G0 : Graph Nat)
+    (hG : s.extract g = some G0) (hid : HasNodeIds G0)
+    (f : Fmt) (hk : f = .graphml → KeysNodup G0) (hr : f = .json → NoReserved G0)
+    (doc : Doc Nat) (hser : serialize s g f = .ok (some doc))
+    (huniq : ((s.graphNodes g).map fun n => n.attrs.get? "NodeID").Nodup)
+    (hnid : ∀ n ∈ s.graphNodes g, n.attrs.get? "NodeID" ≠ none)
+    (hcn : ∀ n ∈ s.nodes, hasClass n.attrs = true) (hce : ∀ e ∈ s.edges, hasClass e.attrs = true)
+    (hset : ∀ n ∈ s.graphNodes g, SetterProduced FimVerif.Gen.Serial.jsonPropertyNames jsonOk n.attrs) :
+    validate FimVerif.Gen.Serial.jsonPropertyNames jsonOk (importString s doc g').2 g' = .ok () := by
+  have hne : s.graphNodes g ≠ [] := by
+    intro h
+    unfold Store.extract at hG
+    simp [h] at hG
+  exact validates_after_import _ jsonOk graphId_not_json_property s hs g g' G0 hG hid f hk hr doc hser
+    (validate_setter_produced _ jsonOk s g hne hnid huniq hcn hce hset)
+
+/-- non-vacuity: the merged store above carries `UserData = "7"` (a bare number) and `Tags = "\"x\""` (a bare string) -/
+example : exMerged.graphNodes (.str "A") ≠ [] ∧
+    ((exMerged.graphNodes (.str "A")).map fun n => n.attrs.get? "NodeID").Nodup ∧
+    (∀ n ∈ exMerged.nodes, hasClass n.attrs = true) ∧ (∀ e ∈ exMerged.edges, hasClass e.attrs = true) := by decide
+
+example : ∀ n ∈ exMerged.graphNodes (.str "A"),
+    SetterProduced FimVerif.Gen.Serial.jsonPropertyNames (fun t => t == "7" || t == "\"x\"") n.attrs := by decide
+
+example : validate FimVerif.Gen.Serial.jsonPropertyNames (fun t => t == "7" || t == "\"x\"") exMerged (.str "A") = .ok () := rfl
+
 end FimVerif.C01
